@@ -240,8 +240,16 @@ fn c08(tier: &str, seed: u64) -> GridCheck {
     let count = if tier == "quick" { 240 } else { 3000 };
     let macs = ["join_spawn", "try_join_spawn", "spawn", "try_spawn"];
     c.progs = sample(seed, 0x0800, count, &cfg, &|i| Some(macs[i % 4]));
+    // a third of the programs pass the thread handles through a custom joiner: the threads of a step
+    // must be alive at the same time with it too
+    for (i, p) in c.progs.iter_mut().enumerate() {
+        if (i / 4) % 3 == 1 && p.branches.len() <= 8 {
+            p.opts.joiner = Some("jv_join".to_string());
+            p.opts.order = vec![1];
+        }
+    }
     c.budget = if tier == "quick" { 24 } else { 120 };
-    c.rule = "programs: random grid programs under join_spawn / try_join_spawn / spawn / try_spawn, 1-6 branches, depth profiles with single-active-branch steps; the macro is evaluated on a harness thread that is unnamed or named (`main`, `w_join_3` = the name a nested spawn macro's branch thread has, a name with odd characters). Schedules as C03 (gated callbacks, release permutations). Oracle: rendezvous - with all gates of a multi-branch step held closed every active branch arrives (distinct threads, none the caller's; a branch waiting for a sibling could never arrive); every callback of branch i in such a step runs on a thread named `<caller>_join_<i>` / `join_<i>`; a single active branch runs on the calling thread; the caller has not continued before the last release. Non-trivial = a multi-branch step together with a single-active step or a nested-style caller name".to_string();
+    c.rule = "programs: random grid programs under join_spawn / try_join_spawn / spawn / try_spawn, 1-6 branches, depth profiles with single-active-branch steps, a third of them with a custom joiner that passes the thread handles through; the macro is evaluated on a harness thread that is unnamed or named (`main`, `w_join_3` = the name a nested spawn macro's branch thread has, a name with odd characters). Schedules as C03 (gated callbacks, release permutations). Oracle: rendezvous - with all gates of a multi-branch step held closed every active branch arrives (distinct threads, none the caller's; a branch waiting for a sibling could never arrive); every callback of branch i in such a step runs on a thread named `<caller>_join_<i>` / `join_<i>`; a single active branch runs on the calling thread; the caller has not continued before the last release. Non-trivial = a multi-branch step together with a single-active step or a nested-style caller name".to_string();
     c.assumptions.push("nesting of spawn macros is represented by evaluating the macro on a thread that carries the name a nested branch thread would have (real nesting is exercised by C17)".to_string());
     c
 }
@@ -270,7 +278,7 @@ fn c09(tier: &str, seed: u64) -> GridCheck {
         }
     }
     c.budget = if tier == "quick" { 48 } else { 256 };
-    c.rule = "programs: random grid programs under the six async macro names; every future-returning harness callback (initial values, and_then / or_else / then / `->` callbacks, handlers) awaits a gate. Schedules: wake-up orders enumerated systematically (odometer over the choice points met), then random orders with batches (two gates opened before the next poll) and spurious polls; gate selection all / first / last of each cell; a quarter of the task-spawning programs use a custom joiner that awaits the spawned branches one after the other. Oracle under the deterministic executor: (a) building - and dropping - the future logs nothing; (b) once a step starts every active branch reaches its first pending point; (c) opening a gate notifies the macro's future (non-spawn) ; (d) the branch whose gate opened reaches its next pending point although siblings are pending; (e) the future is never left pending with every gate open and no wake-up outstanding, and completes with the model's value. Non-trivial = >=2 branches, >=2 decisions, gates opened out of index order".to_string();
+    c.rule = "programs: random grid programs under the six async macro names; every future-returning harness callback (initial values, and_then / or_else / then / `->` callbacks, handlers) awaits a gate. Schedules: wake-up orders enumerated systematically (odometer over the choice points met), then random orders with batches (two gates opened before the next poll) and spurious polls; gate selection all / first / last of each cell; a quarter of the task-spawning programs use a custom joiner that awaits the spawned branches one after the other. The future is built in the context of a second, idle runtime and polled on another. Oracle under the deterministic executor: (a) building - and dropping - the future logs nothing (also outside any runtime); (b) once a step starts every active branch reaches its first pending point; (c) opening a gate notifies the macro's future (non-spawn) ; (d) the branch whose gate opened reaches its next pending point although siblings are pending; (e) the future is never left pending with every gate open and no wake-up outstanding, and completes with the model's value. Non-trivial = >=2 branches, >=2 decisions, gates opened out of index order".to_string();
     c
 }
 
@@ -382,16 +390,16 @@ fn c18(tier: &str, seed: u64) -> GridCheck {
     cfg.n = (1, 4);
     cfg.depth = (1, 3);
     cfg.cell = (0, 2);
-    cfg.wrappers = 0.1;
-    cfg.caps = 0.25;
+    cfg.wrappers = 0.2;
+    cfg.caps = 0.35;
     cfg.names = 0.1;
     cfg.handler = 0.4;
     cfg.handler_block = 0.5;
     let count = if tier == "quick" { 192 } else { 1920 };
     c.progs = sample(seed, 0x1800, count, &cfg, &|i| Some(ALL12[i % 12]));
-    c.budget = if tier == "quick" { 40 } else { 200 };
-    c.rule = "programs: random grid programs under all 12 macro names; faults: every single evaluation event of the program under the all-succeed plan (initial value, operand expression, callback call, block capture, handler expression, handler call) in turn panics with a typed payload. Sync / thread-spawning macros: each injected evaluation runs in a child process of the generated binary under catch_unwind; async macros: deterministic executor with gated callbacks and a wake-up order derived from the position, each poll under catch_unwind. Oracle: the panic is observed by the caller (macro expression / poll panics); no event of a later step than the injected one exists; async: the future is never left pending with every gate open and no wake-up outstanding. A run is one (program, injection point); non-trivial = injection in a multi-branch step of a spawn variant, or in a step > 0".to_string();
-    c.assumptions.push("sync macros: a child that does not return within 20 s is reported as inconclusive (exit 2), not as a violation".to_string());
+    c.budget = if tier == "quick" { 60 } else { 300 };
+    c.rule = "programs: random grid programs under all 12 macro names; faults: every single evaluation event of the program under the all-succeed plan (initial value, operand expression, callback call, block capture, handler expression, handler call) in turn panics with a typed payload; then, except for the async try macros (which drop the siblings of a failing branch half way), the evaluation events under one plan with a failing callback, handler and capture positions first. Sync / thread-spawning macros: each injected evaluation runs in a child process of the generated binary under catch_unwind; async macros: deterministic executor with gated callbacks and a wake-up order derived from the position, each poll under catch_unwind. Thread-spawning macros: the later sibling threads of the panicking branch are parked in their first callback of the step and released only when the caller has got control back. Oracle: the panic is observed by the caller (macro expression / poll panics); no event of a later step than the injected one exists; threads: the caller returns while the later siblings are still parked (blocked = still not back after 3 s and, in a confirming second run, after 12 s); async: once the panic has been raised the future panics at its next poll without any further pending point being opened, and is never left pending with every gate open and no wake-up outstanding. A run is one (program, injection point); non-trivial = injection in a multi-branch step of a spawn variant, or in a step > 0".to_string();
+    c.assumptions.push("sync macros: a child that does not return within 40 s is reported as inconclusive (exit 2), not as a violation".to_string());
     c
 }
 
